@@ -175,6 +175,8 @@ func (f *flowSpec) Call(x *gea.Exec, st *gea.State, call *ast.CallExpr, env *gea
 	case recv == "time.Timer":
 		s := x.Effect(st, "TIMERCALL:"+callee.Name(), call.Pos(), args)
 		return one(s)
+	case full == "hash/crc32.ChecksumIEEE":
+		return one(x.Effect(st, "CRC", call.Pos(), args))
 	case full == "io.CopyN" || full == "io.ReadAtLeast" || full == "io.ReadFull" || full == "io.Copy":
 		s := x.Effect(st, "IO:"+callee.Name(), call.Pos(), args)
 		return one(x.GenericCallKill(s, call, env))
